@@ -9,7 +9,8 @@
 (* prints them, calls f with one argument per parameter, and prints them   *)
 (* again; every parameter of f has a kind                                  *)
 (*     value i32 | word W | aview []i32 | sview S | sptr &[]i32 |          *)
-(*     aptr &[2]i32 | ptr &i32 | pptr &&i32 | sp &S | wp &W                *)
+(*     aptr &[2]i32 | ptr &i32 | pptr &&i32 | sp &S | wp &W | tp &T |      *)
+(*     asp &[2]S   (t: T = T {u: S, k: i32}, ss: [2]S)                     *)
 (* the caller writes one of the argument forms of that kind (`x`, `&x`,    *)
 (* `&p`, `&arr[1]`, `&s.m`, `&&p`, ...), and f treats the parameter in one *)
 (* of the ways  none | read | len | write | copy | forward (hands its      *)
@@ -32,7 +33,7 @@
 EXTENDS Machine, Json, TLCExt, SequencesExt
 CONSTANTS Kinds,        \* parameter kinds enumerated for the first parameter
           Kinds2,       \* ... and for the second parameter ({} = one-parameter programs only)
-          MaxForm2,     \* the second parameter uses the first MaxForm2 argument forms of its kind only
+          MaxForm2,     \* the second parameter uses the first MaxForm2 argument forms of its kind only (alias pairs: all forms)
           Fuel
 
 I32T == [k |-> "prim", t |-> "i32"]
@@ -54,43 +55,61 @@ Call(f, args) == [k |-> "CALL", f |-> f, args |-> args, d |-> ""]
 Arr2(a, b) == [k |-> "arr", es |-> <<a, b>>]
 
 StructDecls == << [name |-> "S", kind |-> "struct", ms |-> <<[x |-> "m", ty |-> I32T], [x |-> "a", ty |-> ArrT(2, I32T)]>>],
-              [name |-> "W", kind |-> "word", bits |-> 64, ms |-> <<[x |-> "m", ty |-> I32T], [x |-> "n", ty |-> I32T]>>] >>
+              [name |-> "W", kind |-> "word", bits |-> 64, ms |-> <<[x |-> "m", ty |-> I32T], [x |-> "n", ty |-> I32T]>>],
+              [name |-> "T", kind |-> "struct", ms |-> <<[x |-> "u", ty |-> Named("S")], [x |-> "k", ty |-> I32T]>>] >>
 
-AllKinds == {"value", "word", "aview", "sview", "sptr", "aptr", "ptr", "pptr", "sp", "wp"}
+AllKinds == {"value", "word", "aview", "sview", "sptr", "aptr", "ptr", "pptr", "sp", "wp", "tp", "asp"}
+PtrKinds == {"sptr", "aptr", "ptr", "pptr", "sp", "wp", "tp", "asp"}
 ParamType(kd) == CASE kd = "value" -> I32T [] kd = "word" -> Named("W") [] kd = "aview" -> ViewT(I32T)
                    [] kd = "sview" -> Named("S") [] kd = "sptr" -> PtrT(ViewT(I32T)) [] kd = "aptr" -> PtrT(ArrT(2, I32T))
                    [] kd = "ptr" -> PtrT(I32T) [] kd = "pptr" -> PtrT(PtrT(I32T)) [] kd = "sp" -> PtrT(Named("S"))
-                   [] kd = "wp" -> PtrT(Named("W"))
+                   [] kd = "wp" -> PtrT(Named("W")) [] kd = "tp" -> PtrT(Named("T")) [] kd = "asp" -> PtrT(ArrT(2, Named("S")))
 \* the argument forms the caller may write for a parameter of each kind
 Paren(e) == [k |-> "paren", e |-> e]
 ArgForms(kd) == CASE kd = "value" -> <<Ref("x", 0, <<>>), Ref("arr", 0, <<Ix(1)>>), Ref("p", 0, <<>>), Paren(Ref("p", 0, <<>>))>>
                   [] kd = "word" -> <<Ref("w", 0, <<>>), Paren(Ref("w", 0, <<>>))>>
                   \* an array by name, as a member, through a local pointer `pa: &[2]i32 = &arr`; each also parenthesised
-                  [] kd = "aview" -> <<Ref("arr", 0, <<>>), Ref("s", 0, <<Mb("a")>>), Ref("pa", 0, <<>>),
-                                       Paren(Ref("arr", 0, <<>>)), Paren(Ref("pa", 0, <<>>)), Paren(Ref("s", 0, <<Mb("a")>>))>>
-                  [] kd = "sview" -> <<Ref("s", 0, <<>>), Paren(Ref("s", 0, <<>>)), Ref("ps", 0, <<>>), Paren(Ref("ps", 0, <<>>))>>
+                  \* ... and projected places: an array member of a structure that is itself a member / an element
+                  [] kd = "aview" -> <<Ref("arr", 0, <<>>), Ref("s", 0, <<Mb("a")>>), Ref("t", 0, <<Mb("u"), Mb("a")>>), Ref("ss", 0, <<Ix(1), Mb("a")>>),
+                                       Ref("pa", 0, <<>>), Paren(Ref("arr", 0, <<>>)), Paren(Ref("pa", 0, <<>>)), Paren(Ref("s", 0, <<Mb("a")>>))>>
+                  \* a structure by name; projected places: a member that is a structure, an element of an array of structures,
+                  \* a member through a local pointer `pt: &T = &t`; through `ps: &S = &s`; parenthesised
+                  [] kd = "sview" -> <<Ref("s", 0, <<>>), Ref("t", 0, <<Mb("u")>>), Ref("ss", 0, <<Ix(1)>>), Ref("pt", 0, <<Mb("u")>>),
+                                       Paren(Ref("s", 0, <<>>)), Ref("ps", 0, <<>>), Paren(Ref("ps", 0, <<>>)), Paren(Ref("t", 0, <<Mb("u")>>))>>
                   [] kd = "sptr" -> <<Ref("arr", 1, <<>>), Ref("s", 1, <<Mb("a")>>)>>
                   [] kd = "aptr" -> <<Ref("arr", 1, <<>>)>>
                   [] kd = "ptr" -> <<Ref("x", 1, <<>>), Ref("p", 1, <<>>), Ref("arr", 1, <<Ix(1)>>), Ref("s", 1, <<Mb("m")>>),
-                                     Ref("w", 1, <<Mb("m")>>), Ref("py", 1, <<>>)>>
+                                     Ref("w", 1, <<Mb("m")>>), Ref("py", 1, <<>>), Ref("t", 1, <<Mb("u"), Mb("m")>>),
+                                     Ref("ss", 1, <<Ix(1), Mb("m")>>), Ref("t", 1, <<Mb("u"), Mb("a"), Ix(1)>>)>>
                   [] kd = "pptr" -> <<Ref("p", 2, <<>>)>>
-                  [] kd = "sp" -> <<Ref("s", 1, <<>>)>>
+                  [] kd = "sp" -> <<Ref("s", 1, <<>>), Ref("t", 1, <<Mb("u")>>), Ref("ss", 1, <<Ix(1)>>), Ref("ps", 1, <<>>)>>
                   [] kd = "wp" -> <<Ref("w", 1, <<>>)>>
+                  [] kd = "tp" -> <<Ref("t", 1, <<>>), Ref("pt", 1, <<>>)>>
+                  [] kd = "asp" -> <<Ref("ss", 1, <<>>)>>
 \* the cells (positions in the printed list) that an argument form makes reachable
 \*   1 x  2 y  3 arr[0]  4 arr[1]  5 s.m  6 s.a[0]  7 s.a[1]  8 w.m  9 w.n  10 p (the value it points to)  11 py
+\*   12 t.u.m  13 t.u.a[1]  14 t.k  15 ss[0].m  16 ss[1].m  17 ss[1].a[1]
 Reach(kd, a) == CASE kd \in {"value", "word", "aview", "sview"} -> {}
                   [] kd \in {"sptr", "aptr"} -> IF a = 1 THEN {3, 4} ELSE {6, 7}
-                  [] kd = "ptr" -> (CASE a \in {1, 2} -> {1, 10} [] a = 3 -> {4} [] a = 4 -> {5} [] a = 5 -> {8} [] a = 6 -> {2, 11})
+                  [] kd = "ptr" -> (CASE a \in {1, 2} -> {1, 10} [] a = 3 -> {4} [] a = 4 -> {5} [] a = 5 -> {8} [] a = 6 -> {2, 11}
+                                      [] a = 7 -> {12} [] a = 8 -> {16} [] a = 9 -> {13})
                   [] kd = "pptr" -> {1, 10}         \* p itself and what it points to (p may be re-pointed: cell 10)
-                  [] kd = "sp" -> {5, 6, 7}
+                  [] kd = "sp" -> (CASE a \in {1, 4} -> {5, 6, 7} [] a = 2 -> {12, 13} [] a = 3 -> {16, 17})
                   [] kd = "wp" -> {8, 9}
+                  [] kd = "tp" -> {12, 13, 14}
+                  [] kd = "asp" -> {15, 16, 17}
 \* how f reaches the i32 behind parameter q
 Path(kd) == CASE kd \in {"value", "ptr", "pptr"} -> <<>>
               [] kd \in {"sview", "sp"} -> <<Mb("m")>>
               [] kd \in {"word", "wp"} -> <<Mb("n")>>         \* the second member
               [] kd \in {"aview", "sptr", "aptr"} -> <<Ix(1)>>
+              [] kd = "tp" -> <<Mb("u"), Mb("m")>>
+              [] kd = "asp" -> <<Ix(1), Mb("m")>>
+\* ... and the second element of the array member of the structure behind it (what an array view of that member reads)
+PathA(kd) == CASE kd = "sp" -> <<Mb("a"), Ix(1)>> [] kd = "tp" -> <<Mb("u"), Mb("a"), Ix(1)>> [] kd = "asp" -> <<Ix(1), Mb("a"), Ix(1)>>
 Ways(kd) == {"none", "read", "write", "copy", "forward"}
               \cup (IF kd \in {"aview", "sptr", "aptr"} THEN {"len"} ELSE {})
+              \cup (IF kd \in {"sp", "tp", "asp"} THEN {"writea"} ELSE {})
               \cup (IF kd = "pptr" THEN {"repoint"} ELSE {})
 \* the statements of f for parameter q treated in way `way`; i = 1, 2 distinguishes the written values; other = name of a `ptr` parameter or ""
 Body(q, kd, way, i, other) ==
@@ -98,20 +117,27 @@ Body(q, kd, way, i, other) ==
       [] way = "read" -> <<Pr(Ref(q, 0, Path(kd)))>>
       [] way = "len" -> <<Pr([k |-> "len", r |-> Plain(q, 0, <<>>)])>>
       [] way = "write" -> <<Asg(q, 0, Path(kd), I32(10 + i))>>
+      [] way = "writea" -> <<Asg(q, 0, PathA(kd), I32(40 + i))>>
       [] way = "copy" -> <<Var("c" \o q, I32T, Ref(q, 0, Path(kd))), Asg("c" \o q, 0, <<>>, I32(20 + i)), Pr(Ref("c" \o q, 0, <<>>))>>
       [] way = "forward" -> <<Call("g", <<Ref(q, 1, Path(kd))>>)>>
       [] way = "repoint" -> <<Asg(q, 1, <<>>, Ref(other, 1, <<>>))>>
 Cells == <<Ref("x", 0, <<>>), Ref("y", 0, <<>>), Ref("arr", 0, <<Ix(0)>>), Ref("arr", 0, <<Ix(1)>>), Ref("s", 0, <<Mb("m")>>),
            Ref("s", 0, <<Mb("a"), Ix(0)>>), Ref("s", 0, <<Mb("a"), Ix(1)>>), Ref("w", 0, <<Mb("m")>>), Ref("w", 0, <<Mb("n")>>),
-           Ref("p", 0, <<>>), Ref("py", 0, <<>>)>>
+           Ref("p", 0, <<>>), Ref("py", 0, <<>>),
+           Ref("t", 0, <<Mb("u"), Mb("m")>>), Ref("t", 0, <<Mb("u"), Mb("a"), Ix(1)>>), Ref("t", 0, <<Mb("k")>>),
+           Ref("ss", 0, <<Ix(0), Mb("m")>>), Ref("ss", 0, <<Ix(1), Mb("m")>>), Ref("ss", 0, <<Ix(1), Mb("a"), Ix(1)>>)>>
 RECURSIVE PrintFrom(_)
 PrintFrom(i) == IF i > Len(Cells) THEN <<>> ELSE <<Pr(Cells[i])>> \o PrintFrom(i + 1)
 PrintCells == PrintFrom(1)
+SLit(a, b, c) == [k |-> "st", n |-> "S", fs |-> <<[m |-> "m", e |-> I32(a)], [m |-> "a", e |-> Arr2(I32(b), I32(c))]>>]
 Prelude == << Var("x", I32T, I32(1)), Var("y", I32T, I32(5)), Var("arr", ArrT(2, I32T), Arr2(I32(2), I32(3))),
               Var("s", Named("S"), [k |-> "st", n |-> "S", fs |-> <<[m |-> "m", e |-> I32(4)], [m |-> "a", e |-> Arr2(I32(6), I32(7))]>>]),
               Var("w", Named("W"), [k |-> "st", n |-> "W", fs |-> <<[m |-> "m", e |-> I32(8)], [m |-> "n", e |-> I32(9)]>>]),
               Var("p", PtrT(I32T), Ref("x", 1, <<>>)), Var("py", PtrT(I32T), Ref("y", 1, <<>>)),
-              Var("pa", PtrT(ArrT(2, I32T)), Ref("arr", 1, <<>>)), Var("ps", PtrT(Named("S")), Ref("s", 1, <<>>)) >>
+              Var("pa", PtrT(ArrT(2, I32T)), Ref("arr", 1, <<>>)), Var("ps", PtrT(Named("S")), Ref("s", 1, <<>>)),
+              Var("t", Named("T"), [k |-> "st", n |-> "T", fs |-> <<[m |-> "u", e |-> SLit(12, 13, 14)], [m |-> "k", e |-> I32(15)]>>]),
+              Var("ss", ArrT(2, Named("S")), Arr2(SLit(16, 17, 18), SLit(19, 20, 21))),
+              Var("pt", PtrT(Named("T")), Ref("t", 1, <<>>)) >>
 
 \* a parameter choice: [kd, way, a]
 Params(c1, c2) == IF c2.kd = "" THEN <<c1>> ELSE <<c1, c2>>
@@ -131,10 +157,17 @@ Prog(c1, c2) ==
                    [name |-> "f", params |-> IF Len(cs) = 1 THEN <<par(1)>> ELSE <<par(1), par(2)>>, ret |-> VoidT, body |-> fbody],
                    [name |-> "g", params |-> <<[x |-> "t", ty |-> PtrT(I32T)]>>, ret |-> VoidT,
                     body |-> <<Asg("t", 0, <<>>, I32(30))>>] >>]
-\* a repoint needs a `ptr` parameter to copy the address from
+\* the callee writes through a pointer and then reads through a view: with a view argument that is (part of) what the
+\* pointer reaches, the view must show the write (features.md "Views"; tests/samples/valid/view_aliasing.pn)
+AliasPair(a, b) == /\ a.kd \in PtrKinds /\ a.way \in {"write", "writea", "forward"}
+                   /\ b.kd \in {"aview", "sview"} /\ b.way = "read"
+\* a repoint needs a `ptr` parameter to copy the address from; the pairs are the alias pairs (all argument forms) and
+\* every first parameter with the first MaxForm2 forms of the kinds in Kinds2
 Sensible(c1, c2) == /\ (c1.way = "repoint" => c2.kd = "ptr")
                     /\ (c2.way = "repoint" => c1.kd = "ptr")
-Choice(kds) == {[kd |-> kd, way |-> way, a |-> a] : kd \in kds, way \in {"none", "read", "len", "write", "copy", "forward", "repoint"}, a \in 1..6}
+                    /\ (c2.kd = "" \/ AliasPair(c1, c2) \/ (c2.kd \in Kinds2 /\ c2.a <= MaxForm2))
+Choice(kds) == {[kd |-> kd, way |-> way, a |-> a] : kd \in kds,
+                way \in {"none", "read", "len", "write", "writea", "copy", "forward", "repoint"}, a \in 1..9}
 Valid(c) == c.way \in Ways(c.kd) /\ c.a <= Len(ArgForms(c.kd))
 None == [kd |-> "", way |-> "", a |-> 0]
 
@@ -143,7 +176,7 @@ VARIABLES c1, c2, prog, res, done
 vars == <<c1, c2, prog, res, done>>
 Init == c1 = None /\ c2 = None /\ prog = <<>> /\ res = [status |-> "none"] /\ done = FALSE
 Pick == /\ c1 = None
-        /\ \E a \in {c \in Choice(Kinds) : Valid(c)}, b \in {c \in Choice(Kinds2) : Valid(c) /\ c.a <= MaxForm2} \cup {None} :
+        /\ \E a \in {c \in Choice(Kinds) : Valid(c)}, b \in {c \in Choice(Kinds2 \cup {"aview", "sview"}) : Valid(c)} \cup {None} :
               /\ Sensible(a, b)
               /\ c1' = a /\ c2' = b
               /\ prog' = Prog(a, b)
@@ -170,7 +203,7 @@ NonInterference ==
         IN \A i \in 1..N : out[i] # out[Len(out) - N + i] => i \in Allowed
 \* the family is not vacuous: with `&` the reachable cells do change
 EmitCase == done =>
-    PrintT(<<"CASE", ToJson([c1 |-> c1, c2 |-> c2, status |-> res.status,
+    PrintT(<<"CASE", ToJson([c1 |-> c1, c2 |-> c2, status |-> res.status, n |-> N,
                              out |-> IF res.status = "done" THEN [i \in 1..Len(res.out) |-> res.out[i].v] ELSE <<>>,
                              prog |-> prog])>>)
 =============================================================================
